@@ -567,6 +567,34 @@ theorem dhist_full_tag (d : Decoder F) (pos : Nat) (rem : List Nat) (e : List Ev
     simp only [TSound] at hs
     rw [ih, hs]
 
+/-! Non-vacuity: Big5, sniffing, `EF`, `BB`, then `41` with a replay that stops after `EF` (a Big5 lead
+byte; nothing written, `OutputFull` — a stop only a destination below the documented minimum allows,
+but one the model and the theorems cover): `BB` stays pending in a variant state of **rank 1**, where
+`replayOk_of_rank_zero` does not apply.  The state is reached by three calls from `Decoder.new`, the
+invariant `PendInv` follows by `rawCall_pendInv`, and with it the replay hypothesis `ReplayBB`. -/
+section demo
+private def dB0 : Decoder big5Fam := Decoder.new big5Fam .other .sniff
+private def dB3 : Decoder big5Fam := ⟨.convertingWithPendingBB, .nominal (some 0x6E)⟩
+
+set_option maxRecDepth 8192 in
+example : big5Fam.rank (some 0x6E : Option Nat) = 1 ∧ PendInv dB3 ∧ ReplayBB .utf8 dB3.cur := by
+  have h1 : dB0.rawCall .utf8 [0xEF] false .unlimited .unlimited =
+      .ok .inputEmpty 1 [] ⟨.seenUtf8First, .nominal none⟩ [] := rfl
+  have h2 : (⟨.seenUtf8First, .nominal none⟩ : Decoder big5Fam).rawCall .utf8 [0xBB] false .unlimited .unlimited =
+      .ok .inputEmpty 1 [] ⟨.seenUtf8Second, .nominal none⟩ [] := rfl
+  have h3 : (⟨.seenUtf8Second, .nominal none⟩ : Decoder big5Fam).rawCall .utf8 [0x41] false (.full 1) .unlimited =
+      .ok .outputFull 0 [] dB3 [([], .outputFull, 4)] := rfl
+  have H : FamBB big5Fam := famBB_variant .big5
+  have f0 : Fresh dB0 := fresh_new _ _
+  have p0 : PendInv dB0 := pendInv_new _ _
+  have f1 := rawCall_fresh .utf8 dB0 _ _ _ _ _ _ _ _ _ f0 h1
+  have p1 := rawCall_pendInv H .utf8 dB0 _ _ _ _ _ _ _ _ _ f0 p0 h1
+  have f2 := rawCall_fresh .utf8 _ _ _ _ _ _ _ _ _ _ f1 h2
+  have p2 := rawCall_pendInv H .utf8 _ _ _ _ _ _ _ _ _ _ f1 p1 h2
+  have p3 := rawCall_pendInv H .utf8 _ _ _ _ _ _ _ _ _ _ f2 p2 h3
+  exact ⟨rfl, p3, replayBB_of_pendInv H .utf8 dB3 p3 rfl⟩
+end demo
+
 end EncodingRs.Thm.C10
 
 namespace EncodingRs.Thm.C02
